@@ -77,16 +77,18 @@ func scanLib(c *core.Ctx, fn *core.Fn, name string, keyObj types.Object) bool {
 			return true
 		}
 	}
+	tds := &defs{info: info, body: fn.Decl.Body, g: cfgq.Of(c.Program, fn)}
 	single := func(o types.Object) bool {
-		rhs, other := defsOf(info, body, o)
-		return o != nil && len(rhs) == 1 && other == 0
+		// one real assignment (a zero initialiser before it does not count when the
+		// assignment comes before every read)
+		return o != nil && tds.defOf(o) != nil
 	}
 	if op == nil || cl == nil || !single(op.result) || !single(cl.result) {
 		und("skeleton", "expected `open := strings.IndexByte(key, '{')` and `end := strings.IndexByte(rest, '}')` bound to single-assignment variables")
 		return true
 	}
 	// first-open
-	if objOf(info, strip(info, op.in)) != keyObj {
+	if o := objOf(info, tds.chase(op.in)); o != keyObj {
 		und("first-open", "the search for '{' is not over the whole key")
 	} else {
 		c.Check("R3.tag", name+"/first-open", op.call.Pos(), !op.last,
@@ -108,8 +110,8 @@ func scanLib(c *core.Ctx, fn *core.Fn, name string, keyObj types.Object) bool {
 			if o == cl.result {
 				return 0, 1, 0, true
 			}
-			if rhs, other := defsOf(info, body, o); depth < 4 && len(rhs) == 1 && other == 0 && rhs[0] != nil {
-				return lin2(rhs[0], depth+1)
+			if d := tds.defOf(o); depth < 4 && d != nil {
+				return lin2(d, depth+1)
 			}
 		case *ast.BinaryExpr:
 			a1, b1, k1, ok1 := lin2(x.X, depth+1)
@@ -131,8 +133,8 @@ func scanLib(c *core.Ctx, fn *core.Fn, name string, keyObj types.Object) bool {
 			if o == keyObj {
 				return 0, 0, true
 			}
-			if rhs, other := defsOf(info, body, o); depth < 4 && len(rhs) == 1 && other == 0 && rhs[0] != nil {
-				return baseOf(rhs[0], depth+1)
+			if d := tds.defOf(o); depth < 4 && d != nil {
+				return baseOf(d, depth+1)
 			}
 			return 0, 0, false
 		}
